@@ -11,6 +11,13 @@ use crate::runs::{self, ReplayFile, RunReport};
 
 const VERIF_DIR: &str = "/verif";
 
+/// Where evidence and replay files go. `/verif` unless `VERIF_OUT` is set
+/// (used when a seeded change is evaluated in a scratch copy, so that the
+/// committed evidence is not overwritten).
+fn out_dir() -> String {
+    std::env::var("VERIF_OUT").unwrap_or_else(|_| VERIF_DIR.to_string())
+}
+
 //------------ Property table ------------------------------------------------
 
 pub struct PropSpec {
@@ -974,7 +981,7 @@ pub fn check(prop: &str, tier: &str) -> i32 {
         "wall_s": wall,
         "violations": violations_total,
     });
-    let dir = format!("{VERIF_DIR}/evidence");
+    let dir = format!("{}/evidence", out_dir());
     let _ = std::fs::create_dir_all(&dir);
     let path = format!("{dir}/{}.json", spec.id);
     if let Err(err) = std::fs::write(
@@ -1022,7 +1029,7 @@ pub fn components() -> serde_json::Value {
 }
 
 fn write_replay(prop: &str, r: &RunReport, v: &Violation) -> String {
-    let dir = format!("{VERIF_DIR}/replays");
+    let dir = format!("{}/replays", out_dir());
     let _ = std::fs::create_dir_all(&dir);
     // Minimise history-style runs.
     let mut ops = r.ops.clone();
